@@ -29,22 +29,22 @@ func (f *Fed) Merged() (*merger.MergeResult, error) {
 // OpOptions: which operation features the generator may use. The zero value plus Safe() is the
 // "safe profile" (inside the region the partial theorems cover); Wild() adds the rest.
 type OpOptions struct {
-	MaxDepth       int
-	Aliases        bool
-	AliasCollide   bool // wild: alias equal to a sibling's name / duplicate response keys
-	Args           bool
-	Variables      bool
-	VarDefaults    bool // wild
-	Directives     bool // wild (@skip/@include, by literal and variable)
-	InlineFrags    bool
-	NamedFrags     bool
-	MultiSpread    bool // wild: a named fragment spread more than once
-	Typename       bool
-	RootTypename   bool // wild
-	AbstractFrags  bool
-	NodeRoot       bool // node(id:) at the root with fragments
-	NodeRootPlain  bool // wild: node(id:) { id }
-	AliasHelpers   bool // wild: alias id/__typename
+	MaxDepth      int
+	Aliases       bool
+	AliasCollide  bool // wild: alias equal to a sibling's name / duplicate response keys
+	Args          bool
+	Variables     bool
+	VarDefaults   bool // wild
+	Directives    bool // wild (@skip/@include, by literal and variable)
+	InlineFrags   bool
+	NamedFrags    bool
+	MultiSpread   bool // wild: a named fragment spread more than once
+	Typename      bool
+	RootTypename  bool // wild
+	AbstractFrags bool
+	NodeRoot      bool // node(id:) at the root with fragments
+	NodeRootPlain bool // wild: node(id:) { id }
+	AliasHelpers  bool // wild: alias id/__typename
 }
 
 func SafeOps() OpOptions {
